@@ -64,6 +64,8 @@ if record:
             print(key, c); continue
         dd = os.path.join(driver.VERIF, "known", prop); os.makedirs(dd, exist_ok=True)
         dst = os.path.join(dd, re.sub(r"[^A-Za-z0-9_.-]+", "_", key)[:110] + ".case")
+        while os.path.exists(dst):  # never overwrite the replay of another record
+            dst = dst[:-5] + "_.case"
         shutil.copy(p, dst)
         line = "fixed: property=%s %s key=%s replay=%s %s\n" % (prop, c, key, os.path.relpath(dst, driver.VERIF), subj[5:] if subj.startswith("fix: ") else subj)
         open(driver.KNOWN_FILE, "a").write(line)
